@@ -295,12 +295,12 @@ impl WalRecuperator {
 
         let schema = table.schema();
 
-        if let Some(row) =
-            Row::from_bytes_checked_with_snapshot(delete_op.undo(), schema, &snapshot)?
-        {
-            let columns = schema.column_indexes();
-            self.dml_executor.insert(table_id, &columns, &row)?;
-        }
+        // The analysis pass has decided that this record must be applied: its image is decoded
+        // as it is, NOT filtered through the recovery snapshot (whose horizon is the stale
+        // `last committed` of the last checkpoint and hides everything committed after it).
+        let row = Row::from_bytes_checked(delete_op.undo(), schema)?;
+        let columns = schema.column_indexes();
+        self.dml_executor.insert(table_id, &columns, &row)?;
         Ok(())
     }
 
@@ -324,16 +324,11 @@ impl WalRecuperator {
 
         let schema = table.schema();
 
-        if let Some(undo_row) =
-            Row::from_bytes_checked_with_snapshot(update_op.undo(), schema, &snapshot)?
-        {
-            if let Some(redo_row) =
-                Row::from_bytes_checked_with_snapshot(update_op.redo(), schema, &snapshot)?
-            {
-                self.dml_executor
-                    .update_row(table_id, &row_id, &redo_row, &undo_row)?;
-            }
-        }
+        // Decoded as they are, not through the recovery snapshot (see redo_insert).
+        let undo_row = Row::from_bytes_checked(update_op.undo(), schema)?;
+        let redo_row = Row::from_bytes_checked(update_op.redo(), schema)?;
+        self.dml_executor
+            .update_row(table_id, &row_id, &redo_row, &undo_row)?;
         Ok(())
     }
 
@@ -385,17 +380,12 @@ impl WalRecuperator {
 
         let schema = table.schema();
 
-        if let Some(undo_row) =
-            Row::from_bytes_checked_with_snapshot(update_op.undo(), schema, &snapshot)?
-        {
-            if let Some(redo_row) =
-                Row::from_bytes_checked_with_snapshot(update_op.redo(), schema, &snapshot)?
-            {
-                // Redo: apply new state
-                self.dml_executor
-                    .update_row(table_id, &row_id, &undo_row, &redo_row)?;
-            }
-        }
+        // Decoded as they are, not through the recovery snapshot (see redo_insert).
+        let undo_row = Row::from_bytes_checked(update_op.undo(), schema)?;
+        let redo_row = Row::from_bytes_checked(update_op.redo(), schema)?;
+        // Redo: apply new state
+        self.dml_executor
+            .update_row(table_id, &row_id, &undo_row, &redo_row)?;
         Ok(())
     }
 
@@ -415,12 +405,12 @@ impl WalRecuperator {
 
         let schema = table.schema();
 
-        if let Some(row) =
-            Row::from_bytes_checked_with_snapshot(insert_op.redo(), schema, &snapshot)?
-        {
-            let columns = schema.column_indexes();
-            self.dml_executor.insert(table_id, &columns, &row)?;
-        }
+        // The analysis pass has decided that this record must be applied: its image is decoded
+        // as it is, NOT filtered through the recovery snapshot (whose horizon is the stale
+        // `last committed` of the last checkpoint and hides everything committed after it).
+        let row = Row::from_bytes_checked(insert_op.redo(), schema)?;
+        let columns = schema.column_indexes();
+        self.dml_executor.insert(table_id, &columns, &row)?;
         Ok(())
     }
 }
